@@ -199,13 +199,16 @@ def to_native(shape, j, opaque=None):
     if k in ("setseq", "keyset"):
         items = j["list"] if isinstance(j, dict) else j
         return {to_native(shape.elem, x, opaque) for x in items}
+    if k == "map":
+        items = j["dict"] if isinstance(j, dict) and "dict" in j else []
+        return {to_native(shape.key, kj, opaque): to_native(shape.val, vj, opaque) for kj, vj in items}
     if k == "dictopt":
         items = j["dict"] if isinstance(j, dict) and "dict" in j else []
         out = {}
         for kj, vj in items:
             for key, vshape in shape.entries.items():
                 if _key_matches(key, kj):
-                    out[key] = to_native(vshape, vj, opaque)
+                    out[native_key(key)] = to_native(vshape, vj, opaque)
         return out
     if k == "enum":
         cls = load_class(shape.cls)
@@ -277,6 +280,9 @@ def gen_json(shape, rng: random.Random, seeds=None, size=3):
         return {"list": [gen_json(s, rng, seeds, size) for s in shape.items]}
     if k == "set":
         return {"set": sorted({rng.randint(0, 5) for _ in range(rng.randint(0, 4))})}
+    if k == "map":
+        keys = sorted({rng.randint(0, 5) for _ in range(rng.randint(0, 4))})
+        return {"dict": [[kk, gen_json(shape.val, rng, seeds, size)] for kk in keys]}
     if k == "dictopt":
         return {"dict": [[_key_json(key), gen_json(vs, rng, seeds, size)] for key, vs in shape.entries.items()
                          if key in shape.always or rng.random() < 0.6]}
@@ -318,6 +324,14 @@ def collect_numbers(j, out):
 def _key_json(key):
     if isinstance(key, frozenset):
         return {"frozenset": sorted(key)}
+    if hasattr(key, "member") and hasattr(key, "cls"):
+        return {"enum": key.cls, "member": key.member}
+    return key
+
+
+def native_key(key):
+    if hasattr(key, "member") and hasattr(key, "cls"):
+        return load_class(key.cls)[key.member]
     return key
 
 
